@@ -159,6 +159,8 @@ def _convert_splits_to_groups(splits, N):
     Convert indices of splits into explicit groupings
     '''
     out = []
+    if len(splits) == 0:
+        return [numpy.arange(0, N)]
     for i in range(len(splits)):
         if i == 0:
             out.append(numpy.arange(0,splits[i]+1))
